@@ -27,6 +27,14 @@ from .sval import (SBytes, SStr, MRef, ORef, Obj, SList, SOpt, Rec, Opaque, ExcV
 from . import sval
 
 
+class _Stale:
+    def __repr__(self):
+        return 'STALE'
+
+
+STALE = _Stale()      # value of a loop-carried local that the loop contract declares irrelevant (see loops._cut)
+
+
 class Unsupported(Exception):
     """construct outside the supported subset: the function is UNDECIDED, never silently skipped"""
 
@@ -468,7 +476,12 @@ class Interp:
 
     def ev_Name(self, e):
         try:
-            return self.conv(self.env.lookup(e.id))
+            v = self.env.lookup(e.id)
+            if v is STALE:
+                # a local whose value at the head of a loop the loop contract does not describe ("re-assigned before it is
+                # read in every iteration"): reading it is outside what the invariant can justify - undecided, never a guess
+                raise Unsupported('local %r is read although the loop contract leaves its value at the loop head undescribed' % e.id)
+            return self.conv(v)
         except Unsupported:
             # a local of the function under verification that no statement on this path has bound: CPython raises
             # UnboundLocalError here.  Only claimed for names that are never assigned inside a loop of the function
@@ -717,6 +730,16 @@ class Interp:
                 if st.decide(Bv == 0, 'div0'):
                     raise PyRaise(ExcVal(ZeroDivisionError))
                 return A / Bv
+            if op == 'Pow' and not isreal(b) and ((isinstance(a, float) and a == 2.0) or
+                                                  (is_expr(a) and z3.is_rational_value(a) and a.as_fraction() == 2)):
+                # IEEE double (the one place where "floats as reals" would hide a difference from int arithmetic):
+                # 2.0 ** n is exact for 0 <= n <= 1023 and raises OverflowError from n = 1024 on
+                n = to_int(b)
+                if st.decide(n >= 1024, 'float-pow-overflow'):
+                    raise PyRaise(ExcVal(OverflowError, tag='2.0**n with n >= 1024'))
+                if not st.must(n >= 0):
+                    raise Unsupported('2.0 ** negative exponent')
+                return z3.ToReal(pow2(n, st))
             raise Unsupported('real binop %s' % op)
         A, Bv = to_int(a), to_int(b)
         if op == 'Add':
@@ -1236,6 +1259,8 @@ class Interp:
                     self.block(h.body)
                 finally:
                     st.exc_stack.pop()
+                    if h.name:
+                        self.env.vars.pop(h.name, None)      # Python 3 unbinds the handler's name when the handler ends
             else:
                 self.block(n.orelse)
         except (PyRaise, _Return, _Break, _Continue):
